@@ -336,7 +336,8 @@ def run(ch, render=False):
                     if not exact:
                         cat = "leaf"
                 copts = {"yield_unrecognized_packet_errors": True}
-                if not isinstance(p, bytes) and cat != "foreign_group":
+                if not isinstance(p, bytes):
+                    # (also for a group copied from another generator: what matters is how THIS generator will treat it)
                     copts.update({o: v for o, v in g["opts"].items() if o in ("combine_segmented_packets", "secondary_header_bytes")})
                 r, e = alone(oracle_a[g["di"]], p, 0, copts)
                 if e is not None:
